@@ -172,3 +172,50 @@ CHECKS["C16"] = dict(
     min_nontrivial=50,
     jobs=[dict(cmd="c16", tiers=["quick", "thorough"], timeout=1800)],
 )
+
+CHECKS["C07"] = dict(
+    title="What the flusher writes is exactly what recovery and lookups read back",
+    level="exploration",
+    rule=("seeded plans of 2..8 write batches shaped with the flush hold: single entry, exactly one blob index worth of entries "
+          "(170 / 341), index+1..3, exactly one block of one-page entries, batches spanning blocks, random; entry sizes 28 B, "
+          "exactly one page, one page + 1, the largest storable entry, random; block sizes 16/32/64 KiB and 1 MiB, blob index "
+          "4/8 KiB, 1..2 flushers, compression none/zstd/lz4, overwrites of earlier keys. At every quiescent point: the write "
+          "log is page aligned, inside blocks and free of overlapping writes within a block generation; every key the disk tier "
+          "claims (may_contains) loads its latest version. After a graceful close the device is read by the independent parser "
+          "(harness/src/image.rs): every version written appears exactly once, regions do not overlap, indexed entries decode; "
+          "after reopen every key's lookup equals what the parser reconstructs under the documented stop rule. Non-trivial = at "
+          "least two entries were parsed; distinct = hash(configuration, batches)."),
+    assumptions=HYB_ASSUME + ["the independent parser was written from the on-disk format, not from foyer's scanner; zstd/lz4 are the same third-party crates"],
+    min_nontrivial=10,
+    jobs=[dict(cmd="c07", tiers=["quick", "thorough"], timeout=2400)],
+)
+
+CHECKS["C10"] = dict(
+    title="With the tombstone log, a flushed delete survives any number of restarts",
+    level="exploration",
+    rule=("seeded plans: 300..1000 (quick) / 600..3000 (thorough) keys inserted and flushed, then 1..5 cycles of {delete 1/3/100/"
+          "255/256/257/300/511/513/700 random present keys (within the log capacity), wait, re-insert up to 5 previously deleted "
+          "keys, wait, then either graceful close+reopen or reopen of a copy of the device directory taken without closing}; "
+          "1..2 flushers. After every reopen ALL keys are looked up: a deleted-and-not-re-inserted key must be absent, a "
+          "re-inserted key must read its new version, nothing may read a wrong version. Non-trivial = deletes were flushed and "
+          "at least one reopen happened; distinct = hash of the plan."),
+    assumptions=HYB_ASSUME,
+    min_nontrivial=10,
+    jobs=[dict(cmd="c10", tiers=["quick", "thorough"], timeout=2400)],
+)
+
+CHECKS["C12"] = dict(
+    title="Disk writes happen exactly when policy and placement advice say so",
+    level="exploration",
+    rule=("seeded scripts of 6..19 steps over 5 keys with a fixed placement advice each (default / in-memory-only / on-disk): "
+          "insert_with_properties, get, get_or_fetch, memory eviction, remove, close+reopen; both policies, flush_on_close on/off, "
+          "admission filter admitting all or rejecting a third of the hashes, devices of 8 blocks (no block can be in probation). "
+          "After EVERY step the store is drained and the device image is parsed independently; the multiset of entry copies that "
+          "newly appeared is compared with what policy + advice + admission prescribe for that step (extra copy = unexpected "
+          "write, absent copy = missing write); the origin future must not be polled when memory or disk served the lookup; "
+          "on-disk advised entries must not stay in memory. Non-trivial = the script caused at least one entry copy to be "
+          "written; distinct = hash(configuration, script)."),
+    assumptions=HYB_ASSUME + ["memory is large enough that nothing is evicted unless the script evicts explicitly, so the resident set is known exactly"],
+    min_nontrivial=20,
+    jobs=[dict(cmd="c12", tiers=["quick", "thorough"], timeout=2400)],
+)
